@@ -62,6 +62,8 @@ TOTAL_Q = R("total_q", "total_q.cfg", expect_ops=["replace_subject", "compress_s
 LOCKS_Q = dict(name="locks_q", kind="locks", driver="lockcheck", threads=3, calls=2, rounds=40, stress_threads=16, stress_calls=3)
 LOCKS_T = dict(name="locks_t", kind="locks", driver="lockcheck", threads=4, calls=2, rounds=300, stress_threads=16, stress_calls=4, timeout=3000)
 
+EXPR_Q = R("expr_q", "expr_q.cfg", expect_ops=["expression", "request", "response", "event", "malform", "obs_parse"])
+
 PLAN = {
     "C01": dict(
         rule="every transition TLC explores in the bounded machine (all call sequences up to the depth bound over the listed action families, 2 registers, atoms a1,a2 + known value 1, plus every clear shape of <= 5 elements as input to the obscuring calls) is executed against the real library in several concretisation rounds (atoms -> typed values of every leaf CBOR type); the digest of the result and of every element of it must equal SHA-256 evaluated from the specification's digest term. non-trivial = distinct (call, expected result) pairs whose result has >= 2 elements or is an error",
@@ -148,5 +150,9 @@ PLAN = {
         quick=[LOCKS_Q],
         thorough=[LOCKS_T],
         assumptions=["A-tags: code run by dcbor while it holds its tag-registry lock never calls back into a bc-envelope function that takes a registry lock", "the multithreaded-feature clause (an envelope shared between threads) is exercised by the stress run only in as far as envelopes are built per thread; see DESIGN"],
+    ),
+    "C18": dict(
+        rule="functions {known 1, known 2 (with and without a name), named f, named 1} x parameter lists of length 0-2 over {known 1, known 2, named p} with repeats x parameter values / payloads / contents of every envelope kind in the shape set (leaf, known value, wrapped, assertion, node, elided) x ids x notes {empty, n} x dates {absent, integral, fractional, negative} x response variants {success, failure, early failure; default and explicit payloads}; 14 single-part malformations; parse directly and through bytes, with and without an expected function",
+        quick=[EXPR_Q],
     ),
 }
